@@ -119,13 +119,15 @@ func Convert(graph gdbi.GraphInterface, dataType gdbi.DataType, markTypes map[st
 	switch dataType {
 	case gdbi.VertexData:
 		ve := t.GetCurrent()
+		if ve != nil && !ve.Loaded {
+			//log.Infof("Loading output vertex: %s", ve.ID)
+			//TODO: doing single vertex queries is slow.
+			// Need to rework this to do batched queries
+			// (nil when the element is not there: a null traveler's mark, a
+			// dangling endpoint, a vertex deleted meanwhile)
+			ve = graph.GetVertex(ve.ID, true)
+		}
 		if ve != nil {
-			if !ve.Loaded {
-				//log.Infof("Loading output vertex: %s", ve.ID)
-				//TODO: doing single vertex queries is slow.
-				// Need to rework this to do batched queries
-				ve = graph.GetVertex(ve.ID, true)
-			}
 			return &gripql.QueryResult{
 				Result: &gripql.QueryResult_Vertex{
 					Vertex: ve.ToVertex(),
@@ -137,10 +139,10 @@ func Convert(graph gdbi.GraphInterface, dataType gdbi.DataType, markTypes map[st
 
 	case gdbi.EdgeData:
 		ee := t.GetCurrent()
+		if ee != nil && !ee.Loaded {
+			ee = graph.GetEdge(ee.ID, true)
+		}
 		if ee != nil {
-			if !ee.Loaded {
-				ee = graph.GetEdge(ee.ID, true)
-			}
 			return &gripql.QueryResult{
 				Result: &gripql.QueryResult_Edge{
 					Edge: ee.ToEdge(),
